@@ -284,11 +284,14 @@ def _do_step(step: Step, model, expected: list[dict], model_path: str, base_abs:
                 p in str(raised) or os.path.relpath(p, base_abs) in str(raised) for p in files_before):
             reason = "documented_FileExistsError_sharded"
         if reason is None:
-            viols.append(V(f"save:raised {_site(raised)}" + (f"|{INPLACE} before all were read" if source_rewritten else ""),
+            # structural naming only when the failure is a *read* of an external tensor after one of the
+            # files backing the model's external tensors had already been rewritten by this very call
+            inplace = bool(source_rewritten) and " in ExternalTensor." in _site(raised)
+            viols.append(V(f"save:raised {_site(raised)}" + (f"|{INPLACE} before all were read" if inplace else ""),
                            f"{'ir.save' if backend == 'raw' else 'ir.save_safetensors'} raised on a legal "
                            f"configuration: {type(raised).__name__}: {str(raised)[:300]}"
-                           + (f"; rewritten before the failure: {sorted(source_rewritten)[:4]}" if source_rewritten else ""),
-                           [], stage, fixed=bool(source_rewritten)))
+                           + (f"; rewritten before the failure: files of {sorted(source_rewritten)[:4]}" if inplace else ""),
+                           [], stage, fixed=inplace))
             c["saves_raised_unexpectedly"] += 1
         else:
             c[f"saves_raised_expected:{reason}"] += 1
